@@ -216,6 +216,19 @@ C05_KeepExtends ==
     (Q.poly = R.poly /\ Q.lv = R.lv /\ SameFlagsExcept(Q, "keep") /\ Q.keep # R.keep /\ Q.out = "ok" /\ Ok) =>
       IF R.keep THEN KeepExtends(Q, R) ELSE KeepExtends(R, Q)
 
+(* "... followed by the collapsed parts": with the option, a ring whose routed boundary is one or two pixel centres on a tile matrix that
+   is present comes back as a one-ring polygon of exactly these centres (snap.go:404-411, before any spike removal or splitting) *)
+C05_CollapsedPartsKept ==
+  (Ok /\ R.keep /\ Len(R.poly) >= 1) =>
+    \A e \in SeqToSet(R.lv) : HasRes(R, e.z) =>
+      LET sp == Span(e.k)
+          hot == HotAt(R.poly, sp)
+          ps == PolysAt(R, e.z)
+      IN  \A r \in 1..Len(R.poly) :
+            Len(R.poly[r]) >= 1 =>
+              LET chain == ChainPts(NormRing(R.poly[r], r > 1), hot, sp)
+              IN  Len(chain) \in {1, 2} => \E p \in 1..Len(ps) : Len(ps[p]) = 1 /\ ps[p][1] = chain
+
 C07_Deterministic ==
   \A j \in Later : LET Q == Trace[j] IN
     (Q.poly = R.poly /\ Q.lv = R.lv /\ SameFlagsExcept(Q, "none")) => (Q.res = R.res /\ Q.out = R.out)
